@@ -110,11 +110,29 @@ def _env(kind: str, templates: dict[str, str]):  # noqa: ANN202
     return cls(loader=DictLoader(templates), default_trim=dt)
 
 
+_DATA_BLOBS: dict[int, tuple[Any, bytes]] = {}
+
+
+def _fresh(d: dict[str, Any]) -> dict[str, Any]:
+    """A private copy of a data set for one render (a render must not be able to leak a
+    mutation into the next one).  Unpickling a cached blob is ~10x cheaper than deepcopy."""
+    ent = _DATA_BLOBS.get(id(d))
+    if ent is None or ent[0] is not d:
+        if len(_DATA_BLOBS) > 4000:
+            _DATA_BLOBS.clear()
+        try:
+            ent = (d, pickle.dumps(d, protocol=pickle.HIGHEST_PROTOCOL))
+        except Exception:  # noqa: BLE001
+            return copy.deepcopy(d)
+        _DATA_BLOBS[id(d)] = ent
+    return pickle.loads(ent[1])  # noqa: S301
+
+
 def _render_all(template: Any, datas: list[dict[str, Any]]) -> tuple[tuple[str, str], ...]:
     out = []
     for d in datas:
         try:
-            out.append(("ok", _ADDR.sub(" at 0x?", template.render(**copy.deepcopy(d)))))
+            out.append(("ok", _ADDR.sub(" at 0x?", template.render(**_fresh(d)))))
         except RecursionError:
             out.append(("err", "RecursionError"))
         except Exception as e:  # noqa: BLE001
@@ -1100,7 +1118,19 @@ def _unit_list(tier: str) -> list[tuple[str, str, str]]:
     nsites = len(G.BOOL_SITES)
     out = []
     k = 0
+    import zlib
+
+    big = ("path-edge-ws", "str-edge-ws", "str-invisible", "path-invisible", "tstr-invisible",
+           "path-nested-reserved", "path-nested-loop", "path-backslash", "tstr-mixed")
+    always = {"output", "filter-arg", "liquid-echo", "for-iter", "if", "range-stop", "liquid-for-array-literal",
+              "for-limit", "tablerow-cols", "liquid-if", "tstr-interp", "lambda-body-cmp"}
     for lab, feat, src in units:
+        if lab == "prim-site" and feat.startswith(big):
+            # quick: the large character / keyword families at the essential sites plus a
+            # rotating third of the others (thorough runs every primitive at every site)
+            if feat.rsplit("@", 1)[-1] in always or zlib.crc32(feat.encode()) % 3 == 0:
+                out.append((lab, feat, src))
+            continue
         if lab != "bool":
             out.append((lab, feat, src))
             continue
